@@ -371,8 +371,19 @@ fn json_outcome<K: TKey>(text: &str, tab: &mut Tab) -> (Value, Option<Enr<K>>) {
 
 /// extended observation: text forms, typed accessors, generic getters, iteration, conversions, re-decodings
 pub fn ext_obs<K: TKey>(e: &Enr<K>, tab: &mut Tab) -> Value {
+    ext_obs_level(e, tab, 2)
+}
+
+/// level 1: typed accessors only; level 2: everything
+pub fn ext_obs_level<K: TKey>(e: &Enr<K>, tab: &mut Tab, level: u8) -> Value {
     let mut panics = Vec::new();
     let mut m = Map::new();
+    m.insert("level".into(), json!(if level == 1 { "typed" } else { "full" }));
+    if level == 1 {
+        typed_obs(e, &mut m, &mut panics);
+        m.insert("panics".into(), Value::Array(panics));
+        return Value::Object(m);
+    }
     let text = guarded("to_base64", &mut panics, || e.to_base64()).unwrap_or_default();
     let display = guarded("display", &mut panics, || format!("{}", e)).unwrap_or_default();
     let debug = guarded("debug", &mut panics, || format!("{:?}", e)).unwrap_or_default();
@@ -381,28 +392,7 @@ pub fn ext_obs<K: TKey>(e: &Enr<K>, tab: &mut Tab) -> Value {
     m.insert("display".into(), chars_json(&display));
     m.insert("debug".into(), chars_json(&debug));
     m.insert("json".into(), chars_json(&js));
-    // typed accessors
-    let ip4 = guarded("ip4", &mut panics, || e.ip4()).flatten();
-    let ip6 = guarded("ip6", &mut panics, || e.ip6()).flatten();
-    m.insert("ip4".into(), opt(ip4, |a| bytes_json(&a.octets())));
-    m.insert("ip6".into(), opt(ip6, |a| bytes_json(&a.octets())));
-    m.insert("tcp4".into(), opt(guarded("tcp4", &mut panics, || e.tcp4()).flatten(), |p| json!(p)));
-    m.insert("tcp6".into(), opt(guarded("tcp6", &mut panics, || e.tcp6()).flatten(), |p| json!(p)));
-    m.insert("udp4".into(), opt(guarded("udp4", &mut panics, || e.udp4()).flatten(), |p| json!(p)));
-    m.insert("udp6".into(), opt(guarded("udp6", &mut panics, || e.udp6()).flatten(), |p| json!(p)));
-    m.insert("udp4_socket".into(), opt(guarded("udp4_socket", &mut panics, || e.udp4_socket()).flatten(), sock4));
-    m.insert("udp6_socket".into(), opt(guarded("udp6_socket", &mut panics, || e.udp6_socket()).flatten(), sock6));
-    m.insert("tcp4_socket".into(), opt(guarded("tcp4_socket", &mut panics, || e.tcp4_socket()).flatten(), sock4));
-    m.insert("tcp6_socket".into(), opt(guarded("tcp6_socket", &mut panics, || e.tcp6_socket()).flatten(), sock6));
-    m.insert("udp_reach".into(), json!(guarded("is_udp_reachable", &mut panics, || e.is_udp_reachable()).unwrap_or(false)));
-    m.insert("tcp_reach".into(), json!(guarded("is_tcp_reachable", &mut panics, || e.is_tcp_reachable()).unwrap_or(false)));
-    m.insert("id".into(), opt(guarded("id", &mut panics, || e.id()).flatten(), |s| bytes_json(s.as_bytes())));
-    m.insert(
-        "client".into(),
-        opt(guarded("client_info", &mut panics, || e.client_info()).flatten(), |(n, v, b)| {
-            json!({"n": bytes_json(n.as_bytes()), "v": bytes_json(v.as_bytes()), "b": opt(b, |s| bytes_json(s.as_bytes()))})
-        }),
-    );
+    typed_obs(e, &mut m, &mut panics);
     // generic getters per key
     let pairs = guarded("iter", &mut panics, || pairs_of(e)).unwrap_or_default();
     let mut getters = Vec::new();
@@ -460,6 +450,31 @@ pub fn ext_obs<K: TKey>(e: &Enr<K>, tab: &mut Tab) -> Value {
     m.insert("redec".into(), Value::Object(redec));
     m.insert("panics".into(), Value::Array(panics));
     Value::Object(m)
+}
+
+fn typed_obs<K: TKey>(e: &Enr<K>, m: &mut Map<String, Value>, panics: &mut Vec<Value>) {
+    // typed accessors
+    let ip4 = guarded("ip4", panics, || e.ip4()).flatten();
+    let ip6 = guarded("ip6", panics, || e.ip6()).flatten();
+    m.insert("ip4".into(), opt(ip4, |a| bytes_json(&a.octets())));
+    m.insert("ip6".into(), opt(ip6, |a| bytes_json(&a.octets())));
+    m.insert("tcp4".into(), opt(guarded("tcp4", panics, || e.tcp4()).flatten(), |p| json!(p)));
+    m.insert("tcp6".into(), opt(guarded("tcp6", panics, || e.tcp6()).flatten(), |p| json!(p)));
+    m.insert("udp4".into(), opt(guarded("udp4", panics, || e.udp4()).flatten(), |p| json!(p)));
+    m.insert("udp6".into(), opt(guarded("udp6", panics, || e.udp6()).flatten(), |p| json!(p)));
+    m.insert("udp4_socket".into(), opt(guarded("udp4_socket", panics, || e.udp4_socket()).flatten(), sock4));
+    m.insert("udp6_socket".into(), opt(guarded("udp6_socket", panics, || e.udp6_socket()).flatten(), sock6));
+    m.insert("tcp4_socket".into(), opt(guarded("tcp4_socket", panics, || e.tcp4_socket()).flatten(), sock4));
+    m.insert("tcp6_socket".into(), opt(guarded("tcp6_socket", panics, || e.tcp6_socket()).flatten(), sock6));
+    m.insert("udp_reach".into(), json!(guarded("is_udp_reachable", panics, || e.is_udp_reachable()).unwrap_or(false)));
+    m.insert("tcp_reach".into(), json!(guarded("is_tcp_reachable", panics, || e.is_tcp_reachable()).unwrap_or(false)));
+    m.insert("id".into(), opt(guarded("id", panics, || e.id()).flatten(), |s| bytes_json(s.as_bytes())));
+    m.insert(
+        "client".into(),
+        opt(guarded("client_info", panics, || e.client_info()).flatten(), |(n, v, b)| {
+            json!({"n": bytes_json(n.as_bytes()), "v": bytes_json(v.as_bytes()), "b": opt(b, |s| bytes_json(s.as_bytes()))})
+        }),
+    );
 }
 
 fn with_eq<K: TKey>(mut o: Value, r: Option<&Enr<K>>, e: &Enr<K>) -> Value {
@@ -862,27 +877,28 @@ impl<W: Write> Exec<W> {
     }
 
     /// store the record in handle `h` (if Some) and return the (post index, ext, facts)
-    fn finish_rec<K: Slot>(&mut self, h: &str, e: Enr<K>, full: bool, tab: &mut Tab) -> (usize, Value, Value) {
+    fn finish_rec<K: Slot>(&mut self, h: &str, e: Enr<K>, full: u8, tab: &mut Tab) -> (usize, Value, Value) {
         let core = core_obs(&e);
         let facts = rec_facts(&core);
         let idx = tab.put(core);
-        let ext = if full { ext_obs(&e, tab) } else { json!([]) };
+        let ext = if full > 0 { json!([ext_obs_level(&e, tab, full)]) } else { json!([]) };
         if !h.is_empty() {
             self.handles.insert(h.to_string(), K::wrap(e));
         }
-        (idx, if full { json!([ext]) } else { ext }, facts)
+        (idx, ext, facts)
     }
 
     pub fn run_script(&mut self, sid: &Value, script: &Value) {
         self.handles.clear();
         let steps = get(script, "steps").as_array().expect("steps");
-        let full_default = get(script, "obs").as_str().unwrap_or("core") == "full";
+        let full_default = match get(script, "obs").as_str().unwrap_or("core") { "full" => 2u8, "typed" => 1u8, _ => 0u8 };
         for (i, step) in steps.iter().enumerate() {
             STEP_ID.fetch_add(1, Ordering::SeqCst);
             STEP_STARTED_MS.store(now_ms(), Ordering::SeqCst);
             let full = match get(step, "obs").as_str() {
-                Some("full") => true,
-                Some(_) => false,
+                Some("full") => 2u8,
+                Some("typed") => 1u8,
+                Some(_) => 0u8,
                 None => full_default,
             };
             self.run_step(sid, i + 1, step, full);
@@ -900,11 +916,36 @@ impl<W: Write> Exec<W> {
         m
     }
 
-    fn run_step(&mut self, sid: &Value, i: usize, step: &Value, full: bool) {
+    fn run_step(&mut self, sid: &Value, i: usize, step: &Value, full: u8) {
         let op = get(step, "op").as_str().expect("op").to_string();
+        // steps on handles that do not exist (their construction was refused) are recorded as skipped
+        let missing = |me: &Self, k: &str| get(step, k).as_str().map(|h| !me.handles.contains_key(h)).unwrap_or(false);
+        let skip = match op.as_str() {
+            "clone" => missing(self, "from"),
+            "compare" => missing(self, "a") || missing(self, "b"),
+            "build" | "decode" => get(step, "ifmissing").as_bool().unwrap_or(false) && !missing(self, "h"),
+            _ => false,
+        };
+        if skip {
+            let mut m = self.base("skip", sid, i, step);
+            m.insert("x".into(), json!(0));
+            self.emit(Value::Object(m));
+            return;
+        }
         match op.as_str() {
             "decode" => {
-                let input = mk_bytes(get(step, "input"));
+                let input = match get(step, "input").get("from").and_then(|x| x.as_str()) {
+                    Some(h) => match self.handles.get(h) {
+                        Some(any) => with_any!(any, e => alloy_rlp::encode(e)),
+                        None => {
+                            let mut m = self.base("skip", sid, i, step);
+                            m.insert("x".into(), json!(0));
+                            self.emit(Value::Object(m));
+                            return;
+                        }
+                    },
+                    None => mk_bytes(get(step, "input")),
+                };
                 self.decode_event(sid, i, step, &input, full, 0);
             }
             "decode_sweep" => {
@@ -915,7 +956,7 @@ impl<W: Write> Exec<W> {
                 let mut j = 0usize;
                 let mut run = |me: &mut Self, b: &[u8]| {
                     j += 1;
-                    me.decode_event(sid, i, step, b, false, j);
+                    me.decode_event(sid, i, step, b, 0, j);
                 };
                 match sweep {
                     "bitflips" => {
@@ -1034,7 +1075,7 @@ impl<W: Write> Exec<W> {
         }
     }
 
-    fn decode_event(&mut self, sid: &Value, i: usize, step: &Value, input: &[u8], full: bool, j: usize) {
+    fn decode_event(&mut self, sid: &Value, i: usize, step: &Value, input: &[u8], full: u8, j: usize) {
         let kts = Self::kts_of(step);
         let h = get(step, "h").as_str().unwrap_or("").to_string();
         let bind_kt = get(step, "kt").as_str().map(|s| s.to_string()).unwrap_or_else(|| kts[0].clone());
@@ -1046,7 +1087,7 @@ impl<W: Write> Exec<W> {
             let o = with_kt!(kt.as_str(), K => {
                 let (o, r) = decode_outcome::<K>(input, &mut tab);
                 if let Some(e) = r {
-                    if full && *kt == bind_kt { ext = json!([ext_obs(&e, &mut tab)]); }
+                    if full > 0 && *kt == bind_kt { ext = json!([ext_obs_level(&e, &mut tab, full)]); }
                     if bind { self.handles.insert(h.clone(), <K as Slot>::wrap(e)); }
                 } else if bind { self.handles.remove(&h); }
                 o
@@ -1079,7 +1120,7 @@ impl<W: Write> Exec<W> {
         self.emit(Value::Object(m));
     }
 
-    fn text_event(&mut self, sid: &Value, i: usize, step: &Value, op: &str, full: bool) {
+    fn text_event(&mut self, sid: &Value, i: usize, step: &Value, op: &str, full: u8) {
         // text: {"chars":[cp..]} | {"b64": BYTESPEC, "prefix":[cp], "suffix":[cp], "std":bool, "pad":n, "tb":n}
         let kts = Self::kts_of(step);
         let h = get(step, "h").as_str().unwrap_or("").to_string();
@@ -1126,7 +1167,7 @@ impl<W: Write> Exec<W> {
             let o = with_kt!(kt.as_str(), K => {
                 let (o, r) = if op == "from_str" { text_outcome::<K>(&arg, &mut tab) } else { json_outcome::<K>(&arg, &mut tab) };
                 if let Some(e) = r {
-                    if full && *kt == bind_kt { ext = json!([ext_obs(&e, &mut tab)]); }
+                    if full > 0 && *kt == bind_kt { ext = json!([ext_obs_level(&e, &mut tab, full)]); }
                     if bind { self.handles.insert(h.clone(), <K as Slot>::wrap(e)); }
                 } else if bind { self.handles.remove(&h); }
                 o
@@ -1157,7 +1198,7 @@ impl<W: Write> Exec<W> {
         self.emit(Value::Object(m));
     }
 
-    fn build_event(&mut self, sid: &Value, i: usize, step: &Value, full: bool) {
+    fn build_event(&mut self, sid: &Value, i: usize, step: &Value, full: u8) {
         let kt = get(step, "kt").as_str().expect("kt").to_string();
         let h = get(step, "h").as_str().unwrap_or("").to_string();
         let signer = get(step, "signer").as_str().expect("signer").to_string();
@@ -1189,7 +1230,7 @@ impl<W: Write> Exec<W> {
         self.emit(Value::Object(m));
     }
 
-    fn call_event(&mut self, sid: &Value, i: usize, step: &Value, full: bool) {
+    fn call_event(&mut self, sid: &Value, i: usize, step: &Value, full: u8) {
         let h = get(step, "h").as_str().expect("h").to_string();
         let method = get(step, "m").as_str().expect("m").to_string();
         let signer = get(step, "signer").as_str().expect("signer").to_string();
@@ -1205,7 +1246,7 @@ impl<W: Write> Exec<W> {
         let kt = kt_of(&any);
         let mut tab = Tab::new();
         let (out, post, ext, facts, signs) = with_any!(&mut any, e => {
-            fn go<K: Slot>(e: &mut Enr<K>, method: &str, args: &Value, signer: &str, fault: usize, full: bool, tab: &mut Tab)
+            fn go<K: Slot>(e: &mut Enr<K>, method: &str, args: &Value, signer: &str, fault: usize, full: u8, tab: &mut Tab)
                 -> (Value, usize, Value, Value, Value) {
                 let key = K::named(signer).expect("signer for key type");
                 keys::reset_signs(fault);
@@ -1215,7 +1256,7 @@ impl<W: Write> Exec<W> {
                 let core = core_obs(e);
                 let facts = rec_facts(&core);
                 let idx = tab.put(core);
-                let ext = if full { json!([ext_obs(e, tab)]) } else { json!([]) };
+                let ext = if full > 0 { json!([ext_obs_level(e, tab, full)]) } else { json!([]) };
                 (out, idx, ext, facts, signs)
             }
             go(e, &method, &args, &signer, fault, full, &mut tab)
